@@ -12,10 +12,11 @@ import (
 	"google.golang.org/protobuf/proto"
 )
 
-var rtTripIDs = []string{"t1", "t2", "t3", "", "067800_L..N", "067850_L..S", "123456_M..N", "000205_7X..S01R", "999999_A..N", "12345_L..N", "067800_L.N", "067800_LLL..N", "trip with space", "A"}
-var rtRoutes = []string{"L", "M", "A", "", "7X", "r1"}
+var rtTripIDs = []string{"t1", "t2", "t3", "", "067800_L..N", "067850_L..S", "123456_M..N", "000205_7X..S01R", "999999_A..N", "12345_L..N", "067800_L.N", "067800_LLL..N", "trip with space", "A", "067800_L·.N", "067850_L··S", "063000_GS•.S01R"}
+var rtRoutes = []string{"L", "M", "A", "", "7X", "r1", "A ", " A", "MX", "Mx", "XM", "L ", "a"}
 var rtStops = []string{"L01N", "L03S", "M11N", "M11S", "M12N", "M16S", "M18N", "M11X", "M11", "M15N", "A27N", "", "stop"}
 
+func (g *gen) pickTD(l []*gtfsrt.TripDescriptor) *gtfsrt.TripDescriptor { return l[g.r.Intn(len(l))] }
 func (g *gen) startTime() *string {
 	switch g.r.Intn(8) {
 	case 0:
@@ -162,6 +163,10 @@ func (g *gen) vehiclePosition(ts uint64) *gtfsrt.VehiclePosition {
 			vp.Timestamp = ptr(uint64(0))
 		case 1:
 			vp.Timestamp = ptr(uint64(1<<63 + uint64(g.r.Intn(1000))))
+			if g.coin(0.6) {
+				// 2^64-62135596800 wraps (uint64 -> int64) to the Unix second of Go's zero time.Time: a timestamp like any other
+				vp.Timestamp = ptr([]uint64{18446744011573954816, 18446744011573954815, 18446744011573954817, math.MaxUint64, 1<<63 - 1, 1 << 63, 62135596800, 1, 1<<32 - 1, 1 << 32}[g.r.Intn(10)])
+			}
 		default:
 			vp.Timestamp = ptr(ts + uint64(g.r.Intn(100)))
 		}
@@ -185,7 +190,7 @@ func (g *gen) translated() *gtfsrt.TranslatedString {
 	for i := g.r.Intn(3); i > 0; i-- {
 		t := &gtfsrt.TranslatedString_Translation{Text: ptr(g.pick([]string{"Delays", "No service", "", "L trains are running with delays"}))}
 		if g.coin(0.6) {
-			t.Language = ptr(g.pick([]string{"en", "en-html", ""}))
+			t.Language = ptr(g.pick([]string{"en", "en-html", "", "github.com/jamespfennell/gtfs/extensions/nyctalerts/Metadata"}))
 		}
 		ts.Translation = append(ts.Translation, t)
 	}
@@ -305,6 +310,21 @@ func (g *gen) conflictFree(nyct, alerts bool) *gtfsrt.FeedMessage {
 		ny := nyct && g.coin(0.6)
 		trips = append(trips, &tripPlan{td: g.tripDesc(rtTripIDs[ids[i]], ny), veh: -1, nyct: ny})
 	}
+	if g.coin(0.15) {
+		// a trip whose descriptor determines nothing (present but empty, or only fields the parser drops): its identifier is the
+		// zero value, and it is still a trip of its own
+		zero := g.pickTD([]*gtfsrt.TripDescriptor{{}, {StartTime: ptr("8:15:00")}, {StartDate: ptr("2024-01-02")}, {StartTime: ptr("7:05:00"), StartDate: ptr("2024-01-15")},
+			{ScheduleRelationship: gtfsrt.TripDescriptor_SCHEDULED.Enum()}, {TripId: ptr("")}})
+		dup := false
+		for _, t := range trips {
+			if sameTripID(wantTripID(t.td, nil), wantTripID(zero, nil)) {
+				dup = true
+			}
+		}
+		if !dup {
+			trips = append(trips, &tripPlan{td: zero, veh: -1})
+		}
+	}
 	// siblings: distinct trips that agree on trip id, route, direction and start time and differ only in the start date
 	// (absent / another day) or in the schedule relationship: the identifier order must still separate them
 	if nTrips > 0 && !nyct && g.coin(0.35) {
@@ -378,6 +398,16 @@ func (g *gen) conflictFree(nyct, alerts bool) *gtfsrt.FeedMessage {
 			vp.desc = g.vehDesc(fmt.Sprintf("v%d", i))
 		}
 		vehs = append(vehs, vp)
+		if i == 0 && nVeh >= 2 && g.coin(0.12) {
+			// two different vehicles whose (id, label, plate) coincide once glued together with a separator
+			sep := g.pick([]string{"\x00", "_", "|", " ", "/", ""})
+			vehs[0].desc = &gtfsrt.VehicleDescriptor{Id: ptr("A"), Label: ptr("B" + sep + "C")}
+			vehs = append(vehs, &vehPlan{trip: -1, desc: &gtfsrt.VehicleDescriptor{Id: ptr("A" + sep + "B"), Label: ptr("C")}})
+			if g.coin(0.5) {
+				vehs = append(vehs, &vehPlan{trip: -1, desc: &gtfsrt.VehicleDescriptor{Id: ptr("A" + sep)}}, &vehPlan{trip: -1, desc: &gtfsrt.VehicleDescriptor{Id: ptr("A"), Label: ptr("x")}})
+			}
+			i++
+		}
 	}
 	// associations: partial bijection
 	for i, v := range vehs {
